@@ -257,9 +257,10 @@ impl Track {
         let mut events: Vec<Event> = vec![];
         let mut events_head: Vec<Event> = vec![]; // events before timepos (placed before the remaining events)
         let mut cc_values: Vec<isize> = vec![];
+        let mut cc_channels: Vec<isize> = vec![]; // each value is restored on the channel it was set on
         let mut voice: isize = -1;
-        let mut ch: isize = 0;
-        for _ in 0..128 { cc_values.push(-1); }
+        let mut voice_ch: isize = 0;
+        for _ in 0..128 { cc_values.push(-1); cc_channels.push(0); }
         for e in self.events.iter() {
             match e.etype {
                 EventType::Meta | EventType::SysEx => {
@@ -283,7 +284,7 @@ impl Track {
                     e2.time -= timepos;
                     if e2.time < 0 {
                         voice = e2.v1;
-                        ch = e2.channel;
+                        voice_ch = e2.channel;
                         continue;
                     }
                     events.push(e2);
@@ -292,8 +293,10 @@ impl Track {
                     let mut e2 = e.clone();
                     e2.time -= timepos;
                     if e2.time < 0 {
-                        if 0 <= e2.v1 && e2.v1 < 128 { cc_values[e2.v1 as usize] = e2.v2; }
-                        ch = e2.channel;
+                        if 0 <= e2.v1 && e2.v1 < 128 {
+                            cc_values[e2.v1 as usize] = value_range(0, e2.v2, 127); // as the writer will send it
+                            cc_channels[e2.v1 as usize] = e2.channel;
+                        }
                         continue;
                     }
                     events.push(e2);
@@ -307,11 +310,11 @@ impl Track {
         // add cc
         for no in 0..128 {
             if cc_values[no] < 0 { continue; }
-            events_head.push(Event::cc(0, ch, no as isize, cc_values[no as usize]));
+            events_head.push(Event::cc(0, cc_channels[no], no as isize, cc_values[no as usize]));
         }
         // voice
         if voice >= 0 {
-            events_head.push(Event::voice(0, ch, voice));
+            events_head.push(Event::voice(0, voice_ch, voice));
         }
         events_head.append(&mut events);
         self.events = events_head;
